@@ -100,6 +100,8 @@ def sites(path, wins):
         if not code_line(l):
             continue
         code = l.split("//")[0]
+        if "/*" in code:
+            continue
         for kind, table in (("rel", REL), ("ari", ARI), ("log", LOG), ("cst", CST)):
             for pat, rep in table:
                 for m in re.finditer(pat, code):
@@ -182,6 +184,7 @@ def main():
     ap.add_argument("--seed", type=int, default=1)
     ap.add_argument("--clean", action="store_true")
     ap.add_argument("--summary", action="store_true")
+    ap.add_argument("--rerun-survivors", action="store_true", help="run the SURVIVED rows of the given properties again (after a harness change) and update them")
     a = ap.parse_args()
     if a.clean:
         for d in glob.glob(os.path.join(ROOT, "lane-*")):
@@ -198,6 +201,24 @@ def main():
         with cf.ThreadPoolExecutor(a.lanes) as ex:
             list(ex.map(lambda l: l.prepare(), lanes))
         work = []
+        if a.rerun_survivors:
+            for pid in a.pids:
+                lp = os.path.join(sw, pid + ".jsonl")
+                rows = [json.loads(l) for l in open(lp)]
+                keep = [r for r in rows if r["result"] != "SURVIVED"]
+                with open(lp, "w") as fh:
+                    for r in keep:
+                        fh.write(json.dumps(r) + "\n")
+                for r in rows:
+                    if r["result"] == "SURVIVED":
+                        cur = open(os.path.join(REPO, r["file"])).read().split("\n")
+                        cand = [i for i, l in enumerate(cur) if l.strip() == r["old"]]
+                        if not cand:
+                            print("site gone:", pid, r["file"], r["old"][:60]); continue
+                        i = min(cand, key=lambda k: abs(k - (r["line"] - 1)))
+                        indent = cur[i][:len(cur[i]) - len(cur[i].lstrip())]
+                        work.append((pid, r["file"], i, r["kind"], indent + r["new"]))
+            a.pids = []
         for pid in a.pids:
             rng = random.Random(a.seed * 1000 + int(pid[1:]))
             w = windows(P[pid])
